@@ -40,13 +40,22 @@ class BinarySearchTreeAdapted1D(Sampling):
         self.model = model
         self.axis = grid.axes[0]
         self.uniform = Uniform()
+        # boundaries of the cells of the states: the grid's own middle points (not always the arithmetic mean) and the
+        # end points of the axis, as for the q-vector and the drift of the chain
+        axis = self.axis
+        self._cell_bounds = (
+            [axis[0]]
+            + [grid.middle(xi, xip) for xi, xip in zip(axis, axis[1:])]
+            + [axis[-1]]
+        )
 
         self.intensity_of_jumps = intensity_of_jumps
         self.origin_coordinate = grid.origin_coordinate.value
         self._proba_left_axis = 0
         if self.intensity_of_jumps > 0:
             self._proba_left_axis = (
-                model.mass(-np.inf, -grid.h / 2) / self.intensity_of_jumps
+                model.mass(-np.inf, self._cell_bounds[self.origin_coordinate])
+                / self.intensity_of_jumps
             )
         self._coordinates_left_axis = 0, self.origin_coordinate - 1
         self._coordinates_right_axis = self.origin_coordinate + 1, len(self.axis) - 1
@@ -70,9 +79,7 @@ class BinarySearchTreeAdapted1D(Sampling):
         while left != right:
             middle = (left + right) // 2
             l, r = left, middle  # choose left interval by default
-            a, b = 0.5 * (axis[max(0, l - 1)] + axis[l]), 0.5 * (
-                axis[r] + axis[min(len(axis) - 1, r + 1)]
-            )
+            a, b = self._cell_bounds[l], self._cell_bounds[r + 1]
             p = self._compute_probability(a, b)
 
             if current_p > p:
